@@ -165,12 +165,12 @@ def r1_surgery(ctx):
             lid = sorted(ev.loop_bodies)[-1] if ev.loop_bodies else None
             lb = ev.loop_bodies.get(lid, {})
             span = inloop[0].args[1]
-            ok = 'call:gnpy.core.elements.Fiber' in vkey(span) and 'loopvar' in vkey(inloop[0].args[0]) and \
-                isinstance(lb.get('post', {}).get('prev_node'), Rat) and lb['post']['prev_node'].eq(span)
+            # the running predecessor: a local that is the graph predecessor before the loop and the new span after an iteration
+            run = [nm for nm, v in lb.get('post', {}).items() if isinstance(v, Rat) and v.eq(span) and
+                   lb.get('pre', {}).get(nm) is not None and 'predecessors' in vkey(lb['pre'][nm])]
+            ok = 'call:gnpy.core.elements.Fiber' in vkey(span) and 'loopvar' in vkey(inloop[0].args[0]) and bool(run)
             nxt = after[0].args[1]
             ok = ok and 'successors' in vkey(nxt) and vkey(rn[0].args[0]) in vkey(nxt)
-            pre = lb.get('pre', {}).get('prev_node')
-            ok = ok and pre is not None and 'predecessors' in vkey(pre)
         ctx.check('R1.surgery', f'{s} chain', bool(ok), key(f, 'chain'),
                   'split_fiber does not link prev -> span_1 -> ... -> span_n -> next (prev/next read from the graph before the fibre '
                   'is removed, each new span becoming the predecessor of the following one)')
@@ -306,22 +306,26 @@ def r4_split(ctx):
                   'span length: over-long spans survive the split', f'path {[(c[:60], v_) for c, v_ in pc]}')
     sf = repo.func(NW, 'split_fiber')
     g = CFG(sf.node)
-    st_len = [n for n in walk_no_nested(sf.node) if isinstance(n, ast.Assign) and ast.unparse(n.targets[0]) == 'fiber.params.length']
+    fb = sf.params[1]
+    st_len = [n for n in walk_no_nested(sf.node) if isinstance(n, ast.Assign) and ast.unparse(n.targets[0]) == f'{fb}.params.length']
     ctor = [c for c in calls_to(sf, {'Fiber'})]
     ok = False
-    if st_len and ctor:
+    cnl = calls_to(sf, {'calculate_new_length'})
+    res = stmt_of(sf, cnl[0]).targets[0] if cnl and isinstance(stmt_of(sf, cnl[0]), ast.Assign) else None
+    if st_len and ctor and isinstance(res, ast.Tuple) and len(res.elts) == 2:
+        new_len, n_sp = res.elts[0].id, res.elts[1].id
         cn = g.node_of(stmt_of(sf, ctor[0]))
-        ok = ast.unparse(st_len[0].value) == 'new_length' and g.dominates(g.node_of(st_len[0]), cn) and \
-            ast.unparse(kwarg(ctor[0], 'params')) == 'fiber.params.asdict()' and ast.unparse(kwarg(ctor[0], 'type_variety')) == 'fiber.type_variety'
+        ok = ast.unparse(st_len[0].value) == new_len and g.dominates(g.node_of(st_len[0]), cn) and \
+            ast.unparse(kwarg(ctor[0], 'params')) == f'{fb}.params.asdict()' and ast.unparse(kwarg(ctor[0], 'type_variety')) == f'{fb}.type_variety'
         lp = enclosing(ctor[0], ast.For)
-        ok = ok and lp is not None and 'range(n_spans)' in ast.unparse(lp.iter)
+        ok = ok and lp is not None and f'range({n_sp})' in ast.unparse(lp.iter)
         uid = kwarg(ctor[0], 'uid')
-        ok = ok and isinstance(uid, ast.JoinedStr) and 'span' in ast.unparse(uid) and 'fiber.uid' in ast.unparse(uid)
+        lvars = {n.id for n in ast.walk(lp.target) if isinstance(n, ast.Name)} if lp is not None else set()
+        ok = ok and isinstance(uid, ast.JoinedStr) and bool(lvars & names_in(uid)) and f'{fb}.uid' in ast.unparse(uid)
     ctx.check('R4.split', f'{site(sf)} spans', bool(ok), key(sf, 'spans'),
               'split_fiber does not create n_spans spans from the fibre\'s own parameters (with the new length set first), type and a '
               'per-span name')
-    cnl = calls_to(sf, {'calculate_new_length'})
-    ok = bool(cnl) and [ast.unparse(a) for a in cnl[0].args] == ['fiber.params.length', sf.params[2], sf.params[3]]
+    ok = bool(cnl) and [ast.unparse(a) for a in cnl[0].args] == [f'{fb}.params.length', sf.params[2], sf.params[3]]
     ctx.check('R4.split', f'{site(sf)} input', ok, key(sf, 'cnl-args'), 'the split is not computed from the fibre\'s own length, the bounds and the target')
     ctx.need('R4.split', 9)
 
@@ -376,25 +380,34 @@ def r6_every_oms(ctx):
     ok = False
     if len(cs) == 1:
         lp = enclosing(cs[0], ast.For)
-        ok = lp is not None and ast.unparse(lp.iter).replace(' ', '') in ('roadms+transceivers', 'transceivers+roadms')
+        from ..pattern import mexpr
+        it = lp.iter if lp is not None else None
+        ok = isinstance(it, ast.BinOp) and isinstance(it.op, ast.Add) and isinstance(it.left, ast.Name) and isinstance(it.right, ast.Name)
         defs = local_defs(f.node)
-        for nm, kind in (('roadms', 'Roadm'), ('transceivers', 'Transceiver')):
+        seen = set()
+        for nm in ((it.left.id, it.right.id) if ok else ()):
             d = defs.get(nm, [])
-            ok = ok and len(d) == 1 and isinstance(d[0][1], ast.ListComp) and f'elements.{kind}' in ast.unparse(d[0][1]) and \
-                'network.nodes()' in ast.unparse(d[0][1]) and len(d[0][1].generators[0].ifs) == 1
+            ok = ok and len(d) == 1
+            for kind in ('Roadm', 'Transceiver'):
+                if ok and mexpr(f'[V_x for V_x in {f.params[0]}.nodes() if isinstance(V_x, elements.{kind})]', d[0][1]) is not None:
+                    seen.add(kind)
+        ok = ok and seen == {'Roadm', 'Transceiver'}
     ctx.check('R6.every-oms', site(f), ok, key(f, 'all-vertices'),
               'amplifiers are not designed on the OMS leaving EVERY ROADM and EVERY transceiver')
     se = repo.func(NW, 'set_egress_amplifier')
     kinds = set()
-    for n in walk_no_nested(se.node):
+    # the walk over the elements of one OMS: the loop that contains the amplifier set-up call
+    soa = calls_to(se, {'set_one_amplifier'})
+    lp = [enclosing(soa[0], ast.For)] if soa and enclosing(soa[0], ast.For) is not None else []
+    walker = next((n.id for n in ast.walk(lp[0].target) if isinstance(n, ast.Name)), None) if lp else None
+    for n in (walk_no_nested(lp[0]) if lp else ()):
         if isinstance(n, ast.If):
             t = ast.unparse(n.test)
             for k in ('elements.Edfa', 'elements.RamanFiber', 'elements.Multiband_amplifier'):
-                if t == f'isinstance(node, {k})':
+                if t == f'isinstance({walker}, {k})':
                     kinds.add(k)
     ctx.check('R6.every-oms', f'{site(se)} dispatch', len(kinds) == 3, key(se, 'dispatch'),
               f'the OMS walk handles {sorted(kinds)}; Edfa, RamanFiber and Multiband_amplifier must all be designed')
-    lp = [n for n in walk_no_nested(se.node) if isinstance(n, ast.For) and 'oms_nodes' in ast.unparse(n.iter)]
     ctx.check('R6.every-oms', f'{site(se)} whole OMS', bool(lp) and not any(isinstance(x, (ast.Break, ast.Return)) for x in ast.walk(lp[0])),
               key(se, 'whole-oms'), 'the walk over the elements of an OMS can stop early')
     raises = [n for n in walk_no_nested(se.node) if isinstance(n, ast.Raise) and 'ConfigurationError' in ast.unparse(n)]
